@@ -98,7 +98,7 @@ SPEC = {
         "C15_skeleton_type_triggerSettings", "C15_skeleton_Hook_WorkerPool", "C15_skeleton_triggerSettings_hasWorkerPool",
         "C15_skeleton_OrderedMap_ForEach", "C15_skeleton_OrderedMap_Delete", "C15_skeleton_OrderedMap_Set",
         "C15_skeleton_OrderedMap_Clear", "C15_skeleton_OrderedMap_ForEachReverse", "C15_skeleton_orderedmap_bodies",
-        "C15_orderedmap_wellformed", "C15_orderedmap_frozen_pointers", "C15_orderedmap_queries",
+        "C15_orderedmap_wellformed", "C15_orderedmap_frozen_pointers", "C15_orderedmap_queries", "C15_orderedmap_walk",
     ],
     "trusted_base": [
         "hand-written models Hive/Model/Events*.lean of runtime/event, runtime/promise, runtime/valuenotifier and of "
@@ -112,6 +112,9 @@ SPEC = {
         "WithPreTriggerFunc (event and hook level) "
         "as a sequential machine over hook records",
         "orderedmap.ForEach as used by Trigger: linked list with frozen next pointers of removed elements (weak iteration), any interleaving",
+        "orderedmap.OrderedMap at pointer level (Hive/Model/EventsOMap.lean): heap of elements with key/value/prev/next, head, tail, "
+        "dictionary, size; Set/Delete/Clear assignment by assignment, Head/Tail/Get/Has/Size/Clone, ForEach/ForEachReverse with "
+        "mutations from inside the consumer; well-formedness over all histories and frozen pointers of removed elements proved",
         "trigger counters: one atomic Add per Trigger and per visited hook, any number of concurrent Trigger callers; one hook "
         "(EventsMax) and any number of hooks with own limits (EventsMaxN)",
         "LinkTo concurrent with Trigger: linkTo under its mutex (acquire, Unhook, Hook+store+release) against iterating triggers of the "
@@ -133,13 +136,18 @@ SPEC = {
                 "current target), C15_link_concurrent (LinkTo under its mutex concurrent with triggers and hookers: a trigger inside one "
                 "link period fires the linked event exactly once, never through a hook removed before it began). Promise: "
                 "C15_promise_once (any interleaving of OnTrigger/Trigger/unsubscribe: never twice, winner's argument, exactly once at "
-                "quiescence whether registered before, during or after Trigger). Notifier: C15_notifier (sequential histories with repeated "
+                "quiescence whether registered before, during or after Trigger). Registry data structure: C15_orderedmap_wellformed / "
+                "_frozen_pointers / _queries (pointer-level model of orderedmap.OrderedMap, all histories of Set/Delete/Clear: well-formed "
+                "doubly linked list + dictionary + size; removed elements are never written again and keep the neighbours they had when "
+                "removed — the assumptions of the weak-iteration model). Notifier: C15_notifier (sequential histories with repeated "
                 "values) and C15_notifier_wait_race (any interleaving of Wait/Deregister/Notify/cancel): success only if Notify(value) lies "
                 "between creation and deregistration; witnesses of the two repaired defects replayed on the code. Tie: differential runs of "
-                "the ev/it/mn/pr/vn machines (it: Hook/Unhook/LinkTo from inside callbacks; mn: nested triggers on the counter protocol), "
-                "the ar stream over the arity twins Event..Event9, forced schedules through the verif hook (vr), stress traces "
-                "(mt/pt/hw/hc/lk/lm/vc) judged by Lean trace predicates, 21 regenerated synchronisation skeletons / type facts plus "
-                "the uniformity obligation of the ten arity twins, independent Go oracles for every clause.",
+                "the ev/it/mn/pr/vn/om machines (it: Hook/Unhook/LinkTo from inside callbacks; mn: nested triggers on the counter protocol; "
+                "om: the real OrderedMap with Set/Delete/Clear from inside ForEach/ForEachReverse consumers), "
+                "the ar stream over the arity twins Event..Event9 incl. event- and hook-level worker pools (gated single-worker pools, "
+                "oracle pool-routing), forced schedules through the verif hook (vr), stress traces "
+                "(mt/pt/hw/hc/lk/lm/vc) judged by Lean trace predicates, 23 regenerated synchronisation skeletons / type facts, the pinned "
+                "source text of the orderedmap bodies, the uniformity obligation of the ten arity twins, independent Go oracles for every clause.",
         "note": "Trusted: Lean kernel; the hand-written models (tied as described); Go runtime semantics of atomics, select and channels as "
                 "written into the protocol models; a trigger overlapping a re-link is only bounded (0..once per link hook), "
                 "pooled delivery assumes C16's conservation; arities other than Event1 through the uniformity obligation; link cycles not modelled.",
